@@ -699,7 +699,9 @@ class DefaultCodec(Codec):
             # (in `_parent_data_source`: `_data_source`, where a partition has one, is where its
             # own staged values live and must stay untouched for the object to remain usable)
             if hasattr(obj, "_output_keys") and hasattr(obj, "_parent_data_source"):
-                obj._output_keys = output_keys
+                # (the whole merged index, so that the keys this partition inherited from its
+                # own merge parent are passed on when it serves as a merge parent itself)
+                obj._output_keys = dict(index)
                 obj._parent_data_source = data_source
 
             # noinspection PyProtectedMember
